@@ -75,9 +75,89 @@ def probe (ovf nd : Bool) (dims : List (U × U)) (storageLen : Nat) (p : String)
 def metaStr (dims : List (U × U)) : String :=
   s!"ok mdl={(M.minDataLen dims).toNat} len={(M.len dims).toNat} st={showList (dims.map (fun d => d.2.toNat))}"
 
+structure GState where
+  dims : List (U × U)
+  dataLen : Nat
+  cap : Nat
+
+/-- One `has_capacity` / `append` / `clip_dim` step; `none` = outside the model (`skip`). -/
+def growOp (nd : Bool) (st : GState) (op : String) : Option (GState × String) :=
+  let ndim := st.dims.length
+  match op.splitOn ":" with
+  | ["hc", arg] =>
+    match parseList arg with
+    | some [axis, n] =>
+      if axis ≥ ndim then (if nd then some (st, "panic") else none)
+      else some (st, b01 (M.expandedLayout st.dims st.cap.toUInt64 axis n.toUInt64).isSome)
+    | _ => none
+  | ["ap", arg] =>
+    match arg.splitOn "/" with
+    | [ax, sh] =>
+      match ax.toNat?, parseList sh with
+      | some axis, some o =>
+        if (nd && o.length != ndim) || (checkedShapeLen o).isNone then some (st, "noother")
+        else
+          let od := o.map (fun s => (s, 0))
+          let dn := M.toN st.dims
+          if !shapeMatch dn od axis then some (st, "err:shape")
+          else if axis ≥ ndim then (if nd then some (st, "panic") else none)
+          else
+            let newSize := ((sizeAt dn axis + sizeAt od axis) % wordSize).toUInt64
+            match M.expandedLayout st.dims st.cap.toUInt64 axis newSize with
+            | none => some (st, "err:cap")
+            | some nl =>
+              let dl := max st.dataLen (M.minDataLen nl).toNat
+              some ({ st with dims := nl, dataLen := dl },
+                s!"ok[{showList (nl.map (fun d => d.1.toNat))}]dl={dl}")
+      | _, _ => none
+    | _ => none
+  | ["cl", arg] =>
+    match parseList arg with
+    | some [dim, s, e] =>
+      if dim ≥ ndim && !nd then none
+      else
+        match clipDim ⟨M.toN st.dims, st.dataLen, st.cap⟩ dim s e with
+        | none => some (st, "panic")
+        | some t =>
+          some ({ st with dims := t.dims.map (fun d => (d.1.toUInt64, d.2.toUInt64)), dataLen := t.dataLen },
+            s!"ok[{showList (shapeOf t.dims)}]dl={t.dataLen}")
+    | _ => none
+  | _ => none
+
+def growOps (nd : Bool) : GState → List String → Option (List String)
+  | _, [] => some []
+  | st, op :: rest =>
+    match growOp nd st op with
+    | none => none
+    | some (st', a) => (growOps nd st' rest).map (fun as => a :: as)
+
+def handleGrow (ws : List String) : String :=
+  let nd := field ws "k" == "nd"
+  match parseList (field ws "shape"), (field ws "len").toNat?, (field ws "cap").toNat? with
+  | some shape, some dataLen, some cap =>
+    let stridesS := field ws "strides"
+    match (if stridesS == "n" then some [] else parseList stridesS) with
+    | none => "bad-request"
+    | some strides =>
+      let shapeU := toU shape
+      let res : Except Err (List (U × U)) :=
+        if stridesS == "n" then M.tryFromData shapeU dataLen.toUInt64
+        else M.fromDataWithStrides (shapeU.zip (toU strides)) dataLen.toUInt64
+      match res with
+      | .error e => e.toString
+      | .ok l =>
+        let opsS := field ws "ops"
+        let ops := if opsS == "-" then [] else opsS.splitOn ";"
+        match growOps nd ⟨l, dataLen, cap⟩ ops with
+        | none => "skip"
+        | some answers =>
+          s!"ok st={showList (l.map (fun d => d.2.toNat))} | " ++ " ".intercalate answers
+  | _, _, _ => "bad-request"
+
 def handle (line : String) : String :=
   let ws := words line
   match ws with
+  | "a" :: _ => handleGrow ws
   | "t" :: _ =>
     let ovf := field ws "ovf" == "1"
     let nd := field ws "k" == "nd"
